@@ -44,7 +44,7 @@ static Traj run(unsigned n, unsigned steps, float sx, float sy, unsigned it, dou
     // slope V_RF cos(phi_s) = Veff is what the bunch length, the time step and the drift are derived from
     else rf.reset(new RFKickMap(g2, g1, (float)revpart, (float)VRF, (float)fRF, (float)V0, itt, false, nullptr));
     std::vector<float> slip = {angle, 0.f, 0.f};
-    DriftMap dr(g1, g3, slip, (float)E0, itt, false, nullptr);
+    auto drp = with_scratch(slip, [&](const std::vector<float>& sl) { return std::unique_ptr<DriftMap>(new DriftMap(g1, g3, sl, (float)E0, itt, false, nullptr)); }); DriftMap& dr = *drp;
     Identity fp(g3, g1, nullptr);
     Traj t; double cq, cp; t.charge.push_back(centroid(*g1, n, cq, cp, bsel)); t.q.push_back(cq); t.p.push_back(cp);
     finite = true;
